@@ -85,6 +85,8 @@ family("C05_links1", C05, Ops=LINKOPS, MaxOps=2, Teams=fs("t1"))
 family("C05_rc1", C05, Ops=RCOPS, MaxOps=2, MaxRc=2, CountPool=fs(0, 2), Teams=fs("t1"))
 # concentrated walks: few kinds of call, three teams, long transactions (several writes to the same link bucket in one transaction)
 family("C05_setlinks", C05, Teams=fs("t1", "t2", "t3"), Ops=fs("create", "createTeam", "setLinks", "addLinks", "removeLinks"), MaxOps=5)
+# single-link calls (AddLink / RemoveLink report whether something changed) over three teams, long transactions
+family("C05_single", C05, Teams=fs("t1", "t2", "t3"), Ops=fs("create", "createTeam", "addLink", "removeLink", "addLinks"), MaxOps=6)
 family("C05_entity", C05, LinksViaEntity=True, LtPool=fs(fs(), fs("t1"), fs("t1", "t2")),
        Ops=fs("create", "update", "delete", "createTeam", "deleteTeam", "addLinks", "removeLinks"), FieldSets=Sub("FS_C05"))
 
